@@ -63,6 +63,9 @@ def gen_request(rng, ids):
                 lines.append("Stats: %s %s %d" % (rng.choice(["class", "state", "attempt"]), rng.choice(["=", "!=", ">="]), rng.choice([0, 1, 2])))
             else:
                 lines.append("Stats: %s %s" % (rng.choice(["sum", "min", "max", "avg"]), rng.choice(["state", "attempt", "class", "lineno"])))
+        if rng.random() < 0.2:
+            # a Sort header next to Stats (clients send their standard headers): it must not change the numbers
+            lines.append("Sort: %s %s" % (rng.choice(["time", "host_name", "peer_key"] + cols), rng.choice(["asc", "desc"])))
     else:
         if rng.random() < 0.6:
             for _ in range(rng.choice([1, 1, 2, 3])):
@@ -122,7 +125,9 @@ def run(ctx, spec, out):
                 h.both({"op": "tick", "peer": pid})
                 h.both({"op": "mode", "backend": pid, "mode": "ok"})
             elif kind == "logfail":
-                h.both({"op": "mode", "backend": pid, "mode": rng.choice(["error500", "garbage", "closeearly", "badjson", "truncate", "wrongwidth"])})
+                mode = rng.choice(["error500", "garbage", "closeearly", "badjson", "truncate", "wrongwidth"])
+                plan[pid] = "logfail:" + mode
+                h.both({"op": "mode", "backend": pid, "mode": mode})
         queries = []
         for qi in range(nq):
             text = gen_request(rng, ids)
@@ -224,6 +229,8 @@ def judge(v, h, wbs, plan, q, a, m):
     else:
         why = compare_stats(rows, m)
         nontriv = any(p["reply"] for p in q["peers"])
+        if not why and m.get("skipped", 0) > 0 and not any(k.endswith("wrongwidth") for k in plan.values()):
+            why = "%d reply rows of the backends were ignored (they do not have one value per requested column and Stats header): the numbers of those backends are missing from the answer %s" % (m["skipped"], canon(rows)[:200])
     if why:
         v.violations.append(("property", case, why))
         return
